@@ -460,6 +460,27 @@ def observe(R: Real) -> dict:
     return out
 
 
+def observe_public(R: Real) -> dict:
+    """The same program through the public `spox.build(inputs, outputs)` (fresh Builder inside)."""
+    import spox
+
+    out: dict[str, Any] = {}
+    args = list(R.main.requested_arguments or [])
+    ins = {f"a{R.node_id[v._op]}": v for v in args}
+    outs = dict(R.main.requested_results)
+    with warnings.catch_warnings():
+        warnings.simplefilter("ignore")
+        try:
+            out["_model"] = spox.build(ins, outs)
+            out["ok"] = True
+            out["model_err"] = None
+        except Exception as e:  # noqa: BLE001
+            out["ok"] = False
+            out["err"] = err_class(e)
+            out["_model"] = None
+    return out
+
+
 def model_view(m: dict) -> dict:
     """Canonicalise the driver's answer the same way as `observe`."""
     if not m.get("ok"):
